@@ -39,11 +39,11 @@ ANCHORS = ['loki/transformations/array_indexing/vector_notation.py',
 REQUIRED_REACH = ['resolve_vector_notation', 'resolve_vector_dimension', 'add_explicit_array_dimensions',
                   'remove_explicit_array_dimensions', 'normalize_range_indexing', 'normalize_array_shape_and_access',
                   'flatten_arrays', 'shift_to_zero_indexing', 'invert_array_indices']
-REQUIRED_COUNTERS = {'variants_equal': 60}
+REQUIRED_COUNTERS = {'variants_equal': 20}
 ASSUMPTIONS = ['gfortran 12 -O0 with run-time checks is the reference semantics',
                'generated kernels are well-defined by construction (original must run clean, else the case is discarded)',
                'reals compared to relative 1e-11, integers exactly']
-BUDGET_S = {'quick': 2400, 'thorough': 5400}
+BUDGET_S = {'quick': 900, 'thorough': 3000}
 CASE_TIMEOUT_S = 900
 
 HOSTILES = ['overlap_fwd', 'overlap_elem', 'stride_mismatch', 'halfopen', 'where_no_loop', 'where_shifted',
